@@ -303,6 +303,29 @@ func ruleThresholdAgreement(c *Ctx, rule string) {
 func ruleOpenLiteralTypestate(c *Ctx, rule string) {
 	p := c.P
 	setters := map[string][]string{}
+	lrFn := p.Func("internal/imapwire", "Decoder", "LiteralReader")
+	cancelFn := p.Func("internal/imapwire", "LiteralReader", "cancel")
+	// a private helper of an owner, called from nowhere else, writes on the owner's behalf
+	ownerOf := func(fn *ssa.Function) string {
+		for _, owner := range []*ssa.Function{lrFn, cancelFn} {
+			if owner == nil || fn == owner {
+				continue
+			}
+			if !isHelperOf(fn, owner, 2) {
+				continue
+			}
+			only := len(callSitesOf(p, fn)) > 0
+			for _, site := range callSitesOf(p, fn) {
+				if par := site.Parent(); par != owner && !isHelperOf(par, owner, 2) {
+					only = false
+				}
+			}
+			if only {
+				return fnKey(owner)
+			}
+		}
+		return fnKey(fn)
+	}
 	for _, fn := range p.SrcFuncs("internal/imapwire") {
 		allInstrs(fn, func(i ssa.Instruction) {
 			if st, ok := i.(*ssa.Store); ok {
@@ -311,7 +334,7 @@ func ruleOpenLiteralTypestate(c *Ctx, rule string) {
 					if k, ok := st.Val.(*ssa.Const); ok && k.Value != nil {
 						v = k.Value.String()
 					}
-					setters[v] = append(setters[v], fnKey(fn))
+					setters[v] = append(setters[v], ownerOf(fn))
 				}
 			}
 		})
